@@ -59,6 +59,12 @@ def base_cases(tier, rng, both_modes=True, tol_only=False, strict_only=False, n_
                 for mk in marks:
                     for tol in modes:
                         yield {'tol': tol, 'ctx': gen.CONTEXTS[ctxn], 's': 'a' + mac + btw + mk + ' b'}
+    # square brackets inside a child construct of an optional bracket argument are text (only the argument's own closer is structural)
+    for ctxn, macs in (('default', ['\\sqrt', '\\item', '\\section']), ('A', ['\\o', '\\so*', '\\oo'])):
+        for mac in macs:
+            for lab in ['\\textbf{[a]}', '$f[x]$', '{[a]}', '\\emph{see [1]}', '[a]', '\\(g[y]\\)', '\\begin{e}[z]\\end{e}', '\\m{]}', '{]}', '$]$', '\\x[q]', '%]\n']:
+                for tol in modes:
+                    yield {'tol': tol, 'ctx': gen.CONTEXTS[ctxn], 's': 'a' + mac + '[' + lab + ']{x} t'}
     # bodies read by the pylatexenc-3 verbatim-environment parser (context E): what follows \begin{vb} on its line
     for pre in ['', ' ', '  ', '\t', ' \t ', 'k', ' k']:
         for nl in ['\n', '', '\n\n', '\r\n']:
